@@ -193,23 +193,6 @@ pub fn boundary(out: &mut Out, big: bool) -> Vec<Case> {
             c.txs.push(call_tx(&c, None, 3_000_000, 0, init_return_zeros(0x21)));
             add(out, "limits-scaled", c);
         }
-        if !big {
-            continue;
-        }
-        for len in [0xc000u64, 0xc001] {
-            let mut c = base(spec);
-            with_contract(&mut c, A, code(|a| {
-                a.push_u(len).push_u(0).push_u(0).op(0xf0);
-                sstore_top(a, 0);
-                a.push_u(7).push_u(len).push_u(0).push_u(0).op(0xf5);
-                sstore_top(a, 1);
-            }), 0, vec![]);
-            c.txs.push(call_tx(&c, Some(A), 3_000_000, 0, vec![]));
-            add(out, "initcode-limit-opcode", c);
-            let mut c = base(spec);
-            c.txs.push(call_tx(&c, None, 3_000_000, 0, vec![0u8; len as usize]));
-            add(out, "initcode-limit-tx", c);
-        }
     }
     // refund caps: clear N pre-set slots
     for spec in [SpecId::FRONTIER, SpecId::PETERSBURG, SpecId::ISTANBUL, SpecId::BERLIN, SpecId::LONDON, SpecId::PRAGUE] {
@@ -794,6 +777,25 @@ pub fn boundary(out: &mut Out, big: bool) -> Vec<Case> {
                 }
                 add_oracle(c);
             }
+        }
+    }
+    // the real EIP-3860 sizes (thorough tier only; no derived gas limits: each run of the list-based Lean model on a
+    // 49152-byte initcode takes tens of seconds)
+    if big {
+        for len in [0xc000u64, 0xc001] {
+            let spec = SpecId::SHANGHAI;
+            let mut c = base(spec);
+            with_contract(&mut c, A, code(|a| {
+                a.push_u(7).push_u(len).push_u(0).push_u(0).op(0xf5);
+                sstore_top(a, 1);
+            }), 0, vec![]);
+            c.txs.push(call_tx(&c, Some(A), 3_000_000, 0, vec![]));
+            out.count("boundary-initcode-limit-opcode-real-size");
+            v.push(c);
+            let mut c = base(spec);
+            c.txs.push(call_tx(&c, None, 3_000_000, 0, vec![0u8; len as usize]));
+            out.count("boundary-initcode-limit-tx-real-size");
+            v.push(c);
         }
     }
     v
